@@ -29,6 +29,67 @@ func checkC17(r *core.Run) {
 	c17Notify(r, p)
 	c17Lock(r, p)
 	c17Sym(r, p)
+	c17OutLists(r, p)
+}
+
+// c17OutLists: records are decoded through an allocator callback that supplies the list of output slots;
+// a slot left non-nil is an output that exists. Every such callback in the packages the node runs must
+// return a list whose slots are all nil: freshly made, or a reslice of shared storage that is cleared
+// over its whole length (not over a count left from the previous record). The balance index is built
+// from records decoded with the shared-storage allocator.
+func c17OutLists(r *core.Run, p *core.Program) {
+	const rule = "R-C17-sym"
+	n := 0
+	var bad []string
+	for _, f := range p.ModuleFuncs() {
+		sg := f.Signature
+		if sg.Params().Len() != 1 || sg.Results().Len() != 1 || !strings.HasSuffix(sg.Results().At(0).Type().String(), "lib/utxo.UtxoTxOut") || !strings.HasPrefix(sg.Results().At(0).Type().String(), "[]*") {
+			continue
+		}
+		if sg.Params().At(0).Type().String() != "int" {
+			continue
+		}
+		n++
+		for _, b := range f.Blocks {
+			ret, ok := b.Instrs[len(b.Instrs)-1].(*ssa.Return)
+			if !ok {
+				continue
+			}
+			for _, leaf := range an.PhiLeaves(ret.Results[0]) {
+				switch x := leaf.(type) {
+				case *ssa.MakeSlice:
+					continue
+				case *ssa.Const:
+					continue
+				case *ssa.Slice:
+					// shared storage: a clearing loop over the whole returned list
+					v := an.Expr(x)
+					cleared := false
+					an.Instrs(f, func(i ssa.Instruction) {
+						st, ok := i.(*ssa.Store)
+						if !ok || an.Expr(st.Val) != "nil" {
+							return
+						}
+						ia, ok := st.Addr.(*ssa.IndexAddr)
+						if !ok || ia.X != ssa.Value(x) {
+							return
+						}
+						idx := an.Expr(ia.Index)
+						if an.HasCond(an.DomConds(st.Block()), "("+idx+" < builtin.len("+v+"))", true) && (st.Block().Dominates(b) || an.LoopBlocks(f)[st.Block()]) {
+							cleared = true
+						}
+					})
+					if !cleared {
+						bad = append(bad, fmt.Sprintf("%s at %s returns a reslice of shared storage (%s) without clearing all of its slots", core.FuncName(f), p.Pos(f.Pos()), v))
+					}
+				default:
+					bad = append(bad, fmt.Sprintf("%s at %s returns %s", core.FuncName(f), p.Pos(f.Pos()), an.Expr(leaf)))
+				}
+			}
+		}
+	}
+	sort.Strings(bad)
+	r.Check(len(bad) == 0 && n >= 2, rule, "output-slots-start-empty", "-", fmt.Sprintf("%d output-list allocators, each returning only empty slots", n), strings.Join(bad, "; "))
 }
 
 func c17IsHashMapWrite(i ssa.Instruction) bool {
